@@ -149,7 +149,7 @@ theorem restore_view (sb : Sub) (g : Nat) : (sb.restore g).view = sb.view.restor
       intro e _
       simp only [Function.comp]
       unfold CE.unfresh
-      show CE.static _ = (if g < e.dep ∧ e.dep ≤ sb.cur then _ else _)
+      show CE.static _ = (if g < e.dep then _ else _)
       split <;> rfl
 
 /-- stage / stack part of `invalidateJustSystemStage` + `restoreToStage` on every subsystem -/
